@@ -124,6 +124,53 @@ def interrupt_while_loading(chk):
                 chk.coverage["traces_validated_against_impl"] = chk.coverage.get("traces_validated_against_impl", 0) + 1
 
 
+def interrupt_during_git_probe(chk):
+    """the interrupt arrives while Conductor waits for one of its `git` probes (rev-parse --git-dir, rev-parse HEAD,
+    diff-index: all during planning; seconds on a large work tree).  A stand-in `git` first on PATH signals its parent
+    and then answers like the real one.  Conductor must report the abort, exit non-zero and run no task."""
+    import shutil as _sh
+    import select_util
+
+    real_git = _sh.which("git")
+    if real_git is None:
+        chk.coverage["interrupt_during_git_probe"] = "skipped: no git"
+        return
+    env0 = dict(os.environ, **select_util.GIT_ENV)
+    for probe, signame in (("--git-dir", "TERM"), ("diff-index", "INT"), ("HEAD", "INT")):
+        root = implrun.make_project({"COND": 'run_experiment(name="t", run="touch $COND_OUT/ran")\n', ".gitignore": "cond-out\n", "cond_config.toml": ""}, git=True)
+        for argv in (["init", "-q", "-b", "main"], ["add", "-A"], ["commit", "-q", "-m", "c0"]):
+            subprocess.run([real_git] + argv, cwd=root, env=env0, check=True, capture_output=True)
+        bindir = os.path.join(os.path.dirname(root), "bin")
+        os.makedirs(bindir)
+        marker = os.path.join(bindir, "fired")
+        with open(os.path.join(bindir, "git"), "w") as fh:
+            fh.write("#!/bin/bash\ncase \" $* \" in\n  *\" %s\"*|*\" %s \"*) if [ ! -e %s ]; then touch %s; kill -%s $PPID; sleep 0.7; fi ;;\nesac\nexec %s \"$@\"\n"
+                     % (probe, probe, marker, marker, signame, real_git))
+        os.chmod(os.path.join(bindir, "git"), 0o755)
+        res = implrun.run_cond(["run", "//:t"], root, env=dict(select_util.GIT_ENV, PATH=bindir + os.pathsep + os.environ.get("PATH", "")), timeout=40)
+        chk.coverage["evaluations"] += 1
+        chk.count("interrupt during git probe", "%s/SIG%s" % (probe, signame))
+        text = implrun.strip_ansi(res.out + res.err)
+        ran = bool([d for d in (os.listdir(os.path.join(root, "cond-out")) if os.path.isdir(os.path.join(root, "cond-out")) else []) if d.startswith("t.task.")
+                    and os.path.exists(os.path.join(root, "cond-out", d, "ran"))])
+        problems = []
+        if not os.path.exists(marker):
+            continue     # this probe is not issued by the code under test: nothing was injected
+        if res.code == 0:
+            problems.append("cond run exited 0")
+        if "aborted" not in text or "Traceback" in text:
+            problems.append("the abort is not reported: %r" % text[-250:])
+        if ran:
+            problems.append("the task was executed")
+        for msg in problems:
+            chk.violation("impl-violation", "SIG%s delivered while Conductor waits for `git ... %s ...`: %s" % (signame, probe, msg),
+                          {"input": {"part": "interrupt-during-git-probe", "probe": probe, "signal": signame}, "impl_observation": {"exit": res.code, "output": text[-600:]}, "oracle_verdict": msg},
+                          match_key={"point": "git-probe"}, size=1)
+        if not problems:
+            chk.coverage["traces_validated_against_impl"] = chk.coverage.get("traces_validated_against_impl", 0) + 1
+        _sh.rmtree(os.path.dirname(root), ignore_errors=True)
+
+
 def real_interrupts(chk, n):
     """real `cond run` processes with sleeping children, interrupted by a real signal.  Shapes: (0) three parallel
     experiments in flight; (1) a chain -- the signal arrives while the SECOND task runs, i.e. after an earlier task
@@ -282,6 +329,7 @@ def run(tier, seed, replay=None):
                             "processes with sleeping children; distinct_nontrivial = distinct (file, function, line) program points at which a signal was injected" % len(cases))
     real_interrupts(chk, 3 if tier == "quick" else 18)
     interrupt_while_loading(chk)
+    interrupt_during_git_probe(chk)
     if tier == "thorough":
         chk.run_coqchk()
     return chk.finish()
